@@ -1006,8 +1006,12 @@ impl<'o> Hist<'o> {
                         self.do_release(k, false);
                     }
                 } else {
-                    // no arena value left to observe through: plain drop of the owned handle
+                    // no arena value left to observe through: plain drop of the owned handle; the model
+                    // applies the release so that a file-backed arena can be compared after a reopen
                     let e = self.live.remove(k);
+                    let pred = self.model.predict_release(e.boff, e.bcap);
+                    self.model.apply_release(&pred);
+                    self.unobserved_releases += 1;
                     let d0 = drops_now();
                     self.runners[0].drop_handle(e.id);
                     if e.dropper && drops_now() - d0 != 1 {
@@ -1074,5 +1078,23 @@ impl<'o> Hist<'o> {
             crate::watch::unwatch(s);
         }
         self.closed = true;
+        // C13: releases performed by owned handles after the last arena value was gone must have
+        // happened too — observable for a file-backed arena by opening the file again
+        if !self.failed && backend == Backend::File && !rm && self.unobserved_releases > 0 {
+            let cfg = self.runners[0].cfg().clone();
+            if let Ok(mut r) = reopen_runner(&cfg, OpenMode::MapMut, None, false) {
+                let st = r.state();
+                let mut got: Vec<(u32, u32)> = r.snap().nodes.iter().map(|x| (x.0, x.1)).collect();
+                let mut exp = self.model.list.clone();
+                got.sort();
+                exp.sort();
+                self.out.inc("c13_reopen_after_teardown_checks");
+                if st.allocated != self.model.cursor || got != exp {
+                    let msg = format!("{} owned handles were dropped after the last arena value; after reopening the file allocated()={} (expected {}), free list {:?} (expected {:?})", self.unobserved_releases, st.allocated, self.model.cursor, got, exp);
+                    self.viol(&["C13"], "release-after-last-arena-value-lost", msg);
+                }
+                r.teardown();
+            }
+        }
     }
 }
